@@ -53,6 +53,21 @@ func genC04() {
 			return false
 		})
 		if !found {
+			// the same string written as a concatenation: repo + "/" + arch + "/" + indexFilename
+			ast.Inspect(fd, func(n ast.Node) bool {
+				rs, ok := n.(*ast.ReturnStmt)
+				if !ok || found || len(rs.Results) != 1 {
+					return true
+				}
+				if f, args, ok := concatAsFormat(rs.Results[0]); ok && len(args) == 3 {
+					g.def("index_url_format", "string", coqStr(f), "IndexURL format (a concatenation read as a format) at "+g.pos(rs))
+					g.def("index_url_args", "list string", coqStrList(args), "IndexURL operands")
+					found = true
+				}
+				return true
+			})
+		}
+		if !found {
 			fail("index.go: IndexURL is not a single fmt.Sprintf of three arguments")
 		}
 	}
